@@ -75,6 +75,52 @@ def mutants(res, tier, wd):
     log("[E] model mutants refuted: %s" % ", ".join(r["bug"] for r in rs))
 
 
+MUT_POINT = "ELSE (IF cap - w < len + tlen THEN 0 ELSE w) + len + tlen"
+
+
+def tlaps(res, wd):
+    """Machine-checked proof (tlapm, SMT back end) that IndInv of WriterInt.tla is inductive for ALL capacities, terminator
+    and metric lengths; the variant that forgets to count the terminator must NOT be provable."""
+    def go():
+        out = {"ok": False, "obligations": 0, "proved": 0, "mutant_unprovable": False}
+        for variant in ("real", "mutant"):
+            d = os.path.join(wd, "proof-" + variant)
+            os.makedirs(d, exist_ok=True)
+            for f in ("WriterInt.tla", "WriterIntOps.tla", "WriterIntProof.tla"):
+                s = open(os.path.join(SPEC, f)).read()
+                if variant == "mutant" and f == "WriterIntOps.tla":
+                    if MUT_POINT not in s:
+                        raise ToolError("WriterIntOps.tla: mutation point not found")
+                    s = s.replace(MUT_POINT, MUT_POINT[:-len(" + tlen")])
+                open(os.path.join(d, f), "w").write(s)
+            rc, o = sh(["timeout", "900", "tlapm", "--threads", "8", "WriterIntProof.tla"], cwd=d, check=False, timeout=1000)
+            m = re.search(r"All (\d+) obligations proved", o)
+            f2 = re.search(r"(\d+)/(\d+) obligations failed", o)
+            if variant == "real":
+                if m:
+                    out["obligations"] = out["proved"] = int(m.group(1))
+                elif f2:
+                    out["obligations"] = int(f2.group(2)); out["proved"] = int(f2.group(2)) - int(f2.group(1))
+                    out["tail"] = o[-600:]
+                else:
+                    out["tail"] = o[-600:]
+            else:
+                out["mutant_unprovable"] = bool(f2) and not m
+        out["ok"] = out["obligations"] > 0 and out["proved"] == out["obligations"] and out["mutant_unprovable"]
+        return out
+    r = tlc_cached("writerint-tlaps", go, deps=["WriterInt.tla", "WriterIntOps.tla", "WriterIntProof.tla"])
+    if not r["ok"]:
+        res.notes["tlaps"] = "NOT proved: %s" % r
+        log("[E] TLAPS proof of WriterInt's inductive invariant NOT complete (claim stays at TLC grid + Apalache): %s" % r.get("tail", ""))
+        return
+    res.cov["obligations"] = res.cov.get("obligations", 0) + r["obligations"]
+    res.cov["discharged"] = res.cov.get("discharged", 0) + r["proved"]
+    res.cov["checker_cmd"] = (res.cov.get("checker_cmd", "") + " ; tlapm --threads 8 spec/WriterIntProof.tla").strip(" ;")
+    res.notes["tlaps"] = "WriterIntProof.tla: all %d proof obligations discharged by tlapm (SMT); the terminator-not-counted variant is not provable" % r["obligations"]
+    log("[E] TLAPS: IndInv of WriterInt.tla is inductive for ALL capacities: %d/%d obligations proved, mutant unprovable (cached=%s)" % (
+        r["proved"], r["obligations"], r.get("cached")))
+
+
 def apalache(res, wd):
     """All capacities: Apalache discharges the inductive invariant of the integer abstraction WriterInt.tla
     (symbolic Cap, TLen, len in Nat); the variant that forgets to count the terminator must be refuted.
@@ -96,9 +142,9 @@ def apalache(res, wd):
         mdir = os.path.join(od, "mut")
         os.makedirs(mdir, exist_ok=True)
         ops = open(os.path.join(SPEC, "WriterIntOps.tla")).read()
-        if "<<w0 + len + tlen," not in ops:
+        if MUT_POINT not in ops:
             raise ToolError("WriterIntOps.tla: mutation point not found")
-        open(os.path.join(mdir, "WriterIntOps.tla"), "w").write(ops.replace("<<w0 + len + tlen,", "<<w0 + len,"))
+        open(os.path.join(mdir, "WriterIntOps.tla"), "w").write(ops.replace(MUT_POINT, MUT_POINT[:-len(" + tlen")]))
         open(os.path.join(mdir, "WriterInt.tla"), "w").write(open(src).read())
         rc, o = sh(["timeout", "600", "apalache-mc", "check"] + cmds[1] + ["--out-dir=" + os.path.join(od, "o9"), os.path.join(mdir, "WriterInt.tla")], check=False, timeout=700)
         out["mutant_refuted"] = "Found 1 error" in o or "violated" in o
@@ -229,6 +275,7 @@ def run(res, tier, seed, wd, replay=None):
     if tier == "thorough" or not os.environ.get("VERIF_SKIP_MUTANTS"):
         mutants(res, tier, wd)
         apalache(res, wd)
+        tlaps(res, wd)
     build_harness()
     # ---- A: TLC behaviours -> real code
     beh, nbeh = gen_behaviours(res, tier, seed, wd)
